@@ -2,32 +2,54 @@
 import collections
 
 import compat  # noqa: F401
-from props.base import to_request, nontrivial, corpus_for  # noqa: F401
+from props.base import nontrivial, corpus_for  # noqa: F401
 
 ID = 'C13'
 LEAN_MODULES = ['PybtexModel.Props.C13']
 THEOREMS = {
-    'C13_lockstep': 'the two tables of the code stay in lock step (same lower keys, no duplicates, spellings lower to their key) from construction through every operation history',
-    'C13_refines': 'every operation history on the two-table implementation model yields the results and final state of the reference ordered map (refinement, all histories)',
-    'C13_lookup_ignores_case': 'lookups ignore case',
+    'C13_lockstep': 'the two tables of the code stay in lock step (same lower keys, no duplicates, spellings lower to their key) from construction with ANY pair list through every operation history',
+    'C13_refines': 'every operation history (insertions, overwrites, deletions, lookups, update, setdefault/pop, popitem, clear, keys/values/items/bool, d[k]+=n, lower()) on the two-table implementation model, from ANY constructor pair list, yields the results and final state of the reference ordered map (refinement, all histories, any idempotent key normaliser)',
+    'C13_lookup_ignores_case': 'lookups ignore case: two spellings with the same lower-case form address the same entry in get/in/get(k,d)/del/pop and a value written under one is found under the other',
     'C13_overwrite_keeps_position': 'overwriting keeps the position and remembers the new spelling',
     'C13_first_insertion_order': 'a new key is appended: iteration follows first insertion',
     'C13_delete_exact': 'deletion removes exactly that key',
-    'C13_len_contains_iter_agree': 'length, containment, iteration and items agree with each other',
+    'C13_len_contains_iter_agree': 'length, containment, iteration, keys(), values(), items() and bool() agree with each other',
     'C13_lower': 'case-lowering lower-cases the keys, keeps order and values',
-    'C13_default_no_insert': 'the defaulting variant yields its default for absent keys without inserting them',
     'C13_frame': 'an operation on one key leaves lookups of every other key unchanged',
-    'C13_set_refines': 'the case-insensitive set behaves like the reference set under every history of add/discard',
+    'C13_default_refines': 'the defaulting variant: every history (incl. get/setdefault/pop/popitem/update/clear/lower and the counting idiom d[k]+=n) yields the results of the defaulting reference map',
+    'C13_default_no_insert': 'the defaulting reference map is the same ordered map except that d[k] of an absent key yields the default and inserts nothing; every other operation is the plain map\'s',
+    'C13_default_absent': 'on the model of the code, for an absent key: d[k] yields the factory value and changes nothing, get/pop yield the caller\'s default, pop without default raises, setdefault writes the caller\'s default',
+    'C13_set_refines': 'the case-insensitive set behaves like the reference set under every history of add/discard/remove/pop/clear/|=/-=/lookups/len/iteration/lower()',
+    'C13_set_len_contains_iter_agree': 'the set\'s length, containment, iteration and remembered spellings agree with each other',
+    'C13_lower_idempotent': 'the model of str.lower() the driver runs with (whole strings: per-character table, U+0130 expansion, final-sigma rule) is idempotent: the one hypothesis of the theorems above',
+    'C13_refines_lowerPy': 'the three refinement theorems instantiated with that model of str.lower()',
 }
 RULE = ('breadth-first over ALL states reachable from the empty container over keys {a,A,b,B,ab} x values {0,1} '
-        '(state = items() of the implementation), every operation applied once from every state, for each class; '
-        'plus seeded random histories with richer keys; non-trivial = history containing a mutation; distinct by case JSON')
-TRUSTED = ['str.lower is modelled character by character from a table regenerated from the running interpreter (Gen/UnicodeCase.lean): every code point except U+0130 (two-character lower case) and U+03A3 (context rule)']
-ASSUMPTIONS = ['keys are strings without U+0130 and U+03A3; values are integers']
+        '(state = items() of the implementation + whether the object came out of lower()), every operation applied once from every '
+        'state, for each class; every constructor call with up to 4 pairs over {a,A,b} (positional pairs / dict / keyword arguments); '
+        'plus seeded random histories with richer keys (incl. U+0130 and capital sigma in and out of final position); '
+        'non-trivial = history containing a mutation; distinct by case JSON')
+TRUSTED = ['str.lower() of the running interpreter is modelled on whole strings (Model/UniCase.lean lowerPy): per-character table, '
+           'multi-character forms (U+0130) and the final-sigma rule with the cased / case-ignorable classes recovered by probing the '
+           'interpreter (Gen/UnicodeCase.lean, Gen/UnicodeLower.lean; re-checked against the interpreter on every run); the theorems use '
+           'only its idempotence, which is proved',
+           'the iteration order of a Python set is not modelled: the member set.pop() returns is read off the implementation and the '
+           'model checks that it is a member and removes it']
+ASSUMPTIONS = ['keys are arbitrary strings; values are integers; the defaulting variant is built with int (factory value 0); '
+               'a set is never subtracted from itself (s -= s)',
+               'the set iterates a Python set of lower-cased keys: its iteration and the member pop() picks are compared up to order '
+               '("iteration follows first insertion" is stated and checked for the mappings only)',
+               'not covered: __eq__ / __ne__, copying, the binary set operators (| & - ^ and their in-place forms other than |= and -=)']
 
 KEYS = ['a', 'A', 'b', 'B', 'ab']
 VALS = [0, 1]
 PROBE = ['a', 'A', 'b', 'ab', 'AB', 'c']
+
+KEYED = ('set', 'get', 'del', 'contains', 'getD', 'setdefault', 'pop', 'popD', 'incr')
+VALUED = ('set', 'getD', 'setdefault', 'popD', 'incr')
+NULLARY = ('len', 'iter', 'items', 'keys', 'values', 'bool', 'popitem', 'lower', 'clear')
+SET_KEYED = ('add', 'discard', 'remove', 'contains', 'canonical')
+SET_NULLARY = ('lower', 'len', 'iter', 'bool', 'pop', 'clear')
 
 
 def dict_ops():
@@ -36,7 +58,7 @@ def dict_ops():
         for v in VALS:
             ops.append({'o': 'set', 'k': k, 'v': v})
         ops += [{'o': 'get', 'k': k}, {'o': 'del', 'k': k}, {'o': 'contains', 'k': k}, {'o': 'getD', 'k': k, 'v': 7},
-                {'o': 'setdefault', 'k': k, 'v': 1}, {'o': 'pop', 'k': k}, {'o': 'popD', 'k': k, 'v': 9}]
+                {'o': 'setdefault', 'k': k, 'v': 1}, {'o': 'pop', 'k': k}, {'o': 'popD', 'k': k, 'v': 9}, {'o': 'incr', 'k': k, 'v': 1}]
     ops += [{'o': 'len'}, {'o': 'iter'}, {'o': 'items'}, {'o': 'popitem'}, {'o': 'lower'}, {'o': 'clear'},
             {'o': 'update', 'ps': [['A', 1], ['a', 0]]}, {'o': 'update', 'ps': [['b', 1], ['AB', 0], ['B', 0]]},
             {'o': 'update', 'ps': []}]
@@ -44,13 +66,8 @@ def dict_ops():
 
 
 def ddict_ops():
-    ops = []
-    for k in KEYS:
-        for v in VALS:
-            ops.append({'o': 'set', 'k': k, 'v': v})
-        ops += [{'o': 'getdefault', 'k': k, 'v': 0}, {'o': 'del', 'k': k}, {'o': 'contains', 'k': k}, {'o': 'incr', 'k': k}]
-    ops += [{'o': 'len'}, {'o': 'iter'}, {'o': 'items'}, {'o': 'lower'}]
-    return ops
+    # the defaulting variant has every method of the mappings: same operations ('get' is d[k], which never raises there)
+    return dict_ops()
 
 
 def set_ops():
@@ -58,26 +75,41 @@ def set_ops():
     for k in KEYS:
         ops += [{'o': 'add', 'k': k}, {'o': 'discard', 'k': k}, {'o': 'remove', 'k': k}, {'o': 'contains', 'k': k},
                 {'o': 'canonical', 'k': k}]
-    ops.append({'o': 'lower'})
+    ops += [{'o': 'lower'}, {'o': 'pop'}, {'o': 'clear'}, {'o': 'ior', 'l': ['B', 'b', 'AB']}, {'o': 'ior', 'l': []},
+            {'o': 'isub', 'l': ['A', 'ab', 'c']}, {'o': 'isub', 'l': []}]
     return ops
 
 
-MUTATING = {'set', 'del', 'setdefault', 'pop', 'popD', 'popitem', 'lower', 'clear', 'update', 'incr', 'add', 'discard', 'remove'}
+MUTATING = {'set', 'del', 'setdefault', 'pop', 'popD', 'popitem', 'lower', 'clear', 'update', 'incr', 'add', 'discard', 'remove',
+            'ior', 'isub'}
 
 
-def _new(cls, init):
+def _ctor_args(case):
+    """positional argument (or None) and keyword arguments of the constructor call the case describes"""
+    init = [(k, v) for k, v in case['init']]
+    nkw = min(case.get('nkw', 0), len(init))
+    pos, kw = init[:len(init) - nkw], dict(init[len(init) - nkw:])
+    if case.get('ctor', 'pairs') == 'dict':
+        pos = dict(pos)
+    return pos, kw
+
+
+def _new(case):
     from pybtex import utils
-    if cls == 'dict':
-        return utils.CaseInsensitiveDict([(k, v) for k, v in init])
-    if cls == 'odict':
-        return utils.OrderedCaseInsensitiveDict([(k, v) for k, v in init])
+    cls = case['cls']
+    if cls in ('dict', 'odict'):
+        klass = utils.CaseInsensitiveDict if cls == 'dict' else utils.OrderedCaseInsensitiveDict
+        pos, kw = _ctor_args(case)
+        if case.get('ctor') == 'nopos':
+            return klass(**dict(list(pos) + list(kw.items())))
+        return klass(pos, **kw)
     if cls == 'ddict':
         d = utils.CaseInsensitiveDefaultDict(int)
-        for k, v in init:
+        for k, v in case['init']:
             d[k] = v
         return d
     if cls == 'set':
-        return utils.CaseInsensitiveSet(init)
+        return utils.CaseInsensitiveSet(case['init'])
     raise ValueError(cls)
 
 
@@ -86,6 +118,10 @@ def _snap_dict(cls, d, res, probe):
         items = [[k, v] for k, v in d.items()]
     except KeyError:
         items = None
+    try:
+        values = list(d.values())
+    except KeyError:
+        values = None
     keys = list(d)
     if cls == 'odict':
         expected = 'OrderedCaseInsensitiveDict(%r)' % ([(k, v) for k, v in items],) if items is not None else None
@@ -95,8 +131,8 @@ def _snap_dict(cls, d, res, probe):
         r = repr(d)
     except Exception as e:  # noqa
         r = 'EXC:' + type(e).__name__
-    return {'res': res, 'items': items, 'keys': keys, 'len': len(d), 'has': [k in d for k in probe],
-            'repr_ok': r == expected}
+    return {'res': res, 'items': items, 'keys': keys, 'keys_view': list(d.keys()), 'values': values, 'bool': bool(d),
+            'len': len(d), 'has': [k in d for k in probe], 'repr_ok': r == expected}
 
 
 def _snap_set(s, res, probe):
@@ -105,7 +141,7 @@ def _snap_set(s, res, probe):
     members = sorted(s)
     canon = sorted(s.get_canonical_key(m) for m in members)
     expected = 'CaseInsensitiveSet(%r)' % (canon,)
-    return {'res': res, 'iter': members, 'spellings': canon, 'len': len(s), 'has': [k in s for k in probe],
+    return {'res': res, 'iter': members, 'spellings': canon, 'len': len(s), 'bool': bool(s), 'has': [k in s for k in probe],
             'repr_ok': repr(s) == expected and sp == canon}
 
 
@@ -118,10 +154,8 @@ def _apply_dict(d, op):
             return d, None
         if o == 'get':
             return d, {'v': d[op['k']]}
-        if o == 'getdefault':
-            return d, {'v': d[op['k']]}
         if o == 'incr':
-            d[op['k']] += 1
+            d[op['k']] += op['v']
             return d, None
         if o == 'del':
             del d[op['k']]
@@ -134,6 +168,12 @@ def _apply_dict(d, op):
             return d, list(iter(d))
         if o == 'items':
             return d, [[k, v] for k, v in d.items()]
+        if o == 'keys':
+            return d, list(d.keys())
+        if o == 'values':
+            return d, list(d.values())
+        if o == 'bool':
+            return d, bool(d)
         if o == 'getD':
             return d, {'v': d.get(op['k'], op['v'])}
         if o == 'setdefault':
@@ -176,15 +216,41 @@ def _apply_set(s, op):
             return s, s.get_canonical_key(op['k'])
         if o == 'lower':
             return s.lower(), None
+        if o == 'len':
+            return s, len(s)
+        if o == 'iter':
+            return s, sorted(s)
+        if o == 'bool':
+            return s, bool(s)
+        if o == 'pop':
+            return s, s.pop()
+        if o == 'clear':
+            s.clear()
+            return s, None
+        if o == 'ior':
+            s |= list(op['l'])
+            return s, None
+        if o == 'isub':
+            s -= list(op['l'])
+            return s, None
     except KeyError:
         return s, 'KeyError'
     raise ValueError(o)
 
 
 def impl(case):
+    out = _run(case)
+    if isinstance(out, list) and 'tail' in case:
+        return out[max(0, len(out) - case['tail']):]
+    return out
+
+
+def _run(case):
+    if case['op'] == 'cilower':
+        return [s.lower() for s in case['ss']]
     cls = case['cls']
     try:
-        c = _new(cls, case['init'])
+        c = _new(case)
         if cls == 'set':
             out = [_snap_set(c, None, case['probe'])]
             for op in case['ops']:
@@ -200,86 +266,69 @@ def impl(case):
         return {'exception': compat.pybtex_error_kind(e), 'partial': out if 'out' in dir() else None}
 
 
-def _expand(case):
-    """`incr` is get-default followed by set (what `d[k] += 1` does); the driver sees the two steps."""
-    return case
-
-
-def to_request(case):  # noqa: F811
-    if case['cls'] != 'ddict':
+def to_request(case):
+    if case['op'] == 'cilower':
         return case
-    # d[k] += 1 on the defaulting variant = getdefault then set; the reply is folded back in model_out
-    ops = []
-    for op in case['ops']:
-        if op['o'] == 'incr':
-            ops.append({'o': 'getdefault', 'k': op['k'], 'v': 0})
-            ops.append({'o': 'set', 'k': op['k'], 'v': '__INCR__'})
-        else:
-            ops.append(op)
-    if any(o.get('v') == '__INCR__' for o in ops):
-        # the model needs concrete values: resolve them by simulating the counter in Python
-        vals = {}
-        for k, v in case['init']:
-            vals[k.lower()] = v
-        res = []
-        for op in case['ops']:
-            k = op.get('k', '').lower()
-            if op['o'] == 'incr':
-                nv = vals.get(k, 0) + 1
-                vals[k] = nv
-                res.append({'o': 'getdefault', 'k': op['k'], 'v': 0})
-                res.append({'o': 'set', 'k': op['k'], 'v': nv})
+    if case['cls'] == 'set':
+        if not any(op['o'] == 'pop' for op in case['ops']):
+            return case
+        # the order of a Python set is not modelled: the member each pop() picks is read off the implementation; the model
+        # (and the reference set) check that it is a member and remove it
+        out = _run(case)
+        ops = []
+        for i, op in enumerate(case['ops']):
+            if op['o'] == 'pop':
+                r = out[i + 1]['res'] if isinstance(out, list) and len(out) > i + 1 else None
+                ops.append({'o': 'pop', 'choice': r if isinstance(r, str) and r != 'KeyError' else ''})
             else:
-                if op['o'] == 'set':
-                    vals[k] = op['v']
-                elif op['o'] == 'del':
-                    vals.pop(k, None)
-                res.append(op)
-        ops = res
-    return dict(case, ops=ops)
-
-
-def _fold(case, steps):
-    """Drop the intermediate snapshot of the expanded `incr`."""
-    if case['cls'] != 'ddict':
-        return steps
-    out = [steps[0]]
-    i = 1
-    for op in case['ops']:
-        if op['o'] == 'incr':
-            out.append(steps[i + 1])
-            i += 2
-        else:
-            out.append(steps[i])
-            i += 1
-    return out
+                ops.append(op)
+        return dict(case, ops=ops)
+    # the constructor call as the sequence of pairs it writes: a dict / keyword arguments reach the class already collapsed by Python
+    pos, kw = _ctor_args(case)
+    if isinstance(pos, dict):
+        pos = list(pos.items())
+    init = list(pos) + list(kw.items())
+    if case.get('ctor') == 'nopos':
+        init = list(dict(init).items())
+    init = [[k, v] for k, v in init]
+    req = {'op': 'cimap', 'cls': case['cls'], 'init': init, 'ops': case['ops'], 'probe': case['probe']}
+    if 'tail' in case:
+        req['tail'] = case['tail']
+    return req
 
 
 def _sorted_set(steps):
     for s in steps:
         s['iter'] = sorted(s['iter'])
         s['spellings'] = sorted(s['spellings'])
+        if isinstance(s['res'], list):
+            s['res'] = sorted(s['res'])
     return steps
 
 
 def model_out(case, reply):
-    steps = _fold(case, reply['out'])
-    return _sorted_set(steps) if case['cls'] == 'set' else steps
+    if case['op'] == 'cilower':
+        return reply['out']
+    return _sorted_set(reply['out']) if case['cls'] == 'set' else reply['out']
 
 
 def spec_out(case, reply):
-    steps = _fold(case, reply['spec'])
-    return _sorted_set(steps) if case['cls'] == 'set' else steps
+    return _sorted_set(reply['spec']) if case['cls'] == 'set' else reply['spec']
 
 
 def oracle(case, impl_out, reply):
     """The property: the containers behave like the reference ordered map / set; len, containment,
     iteration, items and repr agree with each other."""
+    if case['op'] == 'cilower':
+        return []   # the model of str.lower() against the interpreter: correspondence only, not a clause of the property
     fails = []
     spec = spec_out(case, reply)
     if not isinstance(impl_out, list):
         return ['behaves_like_reference: implementation raised %s' % impl_out.get('exception')]
-    for i, (a, b) in enumerate(zip(impl_out, spec)):
+    if len(impl_out) != len(spec):
+        return ['behaves_like_reference: %d observations of the implementation, %d of the reference' % (len(impl_out), len(spec))]
+    first = len(case['ops']) + 1 - len(spec)   # index of the first reported step (cases with `tail` report only the last ones)
+    for i, (a, b) in enumerate(zip(impl_out, spec), first):
         if a != b:
             diff = [k for k in b if a.get(k) != b.get(k)]
             fails.append('behaves_like_reference: step %d (%s) differs from the reference model in %s: impl=%r reference=%r' % (
@@ -287,70 +336,127 @@ def oracle(case, impl_out, reply):
             break
         n = a['len']
         keys = a['iter'] if 'iter' in a else a['keys']
-        if n != len(keys) or ('items' in a and (a['items'] is None or [k for k, _ in a['items']] != a['keys'])):
-            fails.append('len_contains_iter_agree: step %d: len=%d keys=%r items=%r' % (i, n, keys, a.get('items')))
+        bad = n != len(keys) or a['bool'] != (n != 0)
+        if 'items' in a:
+            bad = bad or a['items'] is None or [k for k, _ in a['items']] != a['keys'] or a['keys_view'] != a['keys'] \
+                or a['values'] != [v for _, v in a['items']]
+        if bad:
+            fails.append('len_contains_iter_agree: step %d: len=%d bool=%r keys=%r keys()=%r items=%r values=%r' % (
+                i, n, a['bool'], keys, a.get('keys_view'), a.get('items'), a.get('values')))
             break
     return fails
 
 
+def valid_case(case):
+    if case.get('op') == 'cilower':
+        return isinstance(case.get('ss'), list)
+    if case.get('cls') == 'set':
+        return all(op.get('o') in SET_KEYED + SET_NULLARY + ('ior', 'isub') for op in case['ops'])
+    return all(op.get('o') in KEYED + NULLARY + ('update',) for op in case['ops']) and case.get('ctor', 'pairs') in ('pairs', 'dict', 'nopos')
+
+
 def buckets(case, impl_out):
+    if case['op'] == 'cilower':
+        return ['lower']
     last = case['ops'][-1]['o'] if case['ops'] else 'init'
     return ['%s:%s' % (case['cls'], last)]
 
 
 def nontrivial(case, impl_out):  # noqa: F811
-    return any(op['o'] in MUTATING for op in case['ops'])
+    if case['op'] == 'cilower':
+        return True
+    return any(op['o'] in MUTATING for op in case['ops']) or bool(case['init'])
 
 
 def corpus():
     return corpus_for(ID)
 
 
-def _bfs(cls, ops, max_states=None):
-    """Every (state, op) transition reachable from the empty container; state = observable snapshot."""
+def _core(ops):
+    """the operations applied from a state that came out of lower(): one spelling per key, no pure observations (every snapshot
+    already observes len / iteration / items / keys / values / bool / containment)"""
+    keep = []
+    for op in ops:
+        if op.get('k') in ('a', 'B'):
+            continue
+        if op['o'] in ('contains', 'len', 'iter', 'items', 'canonical') or (op['o'] == 'set' and op['v'] == 0):
+            continue
+        if op['o'] in ('update', 'ior', 'isub') and not (op.get('ps') or op.get('l')):
+            continue
+        keep.append(op)
+    return keep
+
+
+def _bfs(cls, ops, max_states=None, full=False):
+    """Every (state, op) transition reachable from the empty container.  State = observable snapshot (items / spellings) plus
+    whether the object is one that lower() returned (or descends from one): such an object is a different Python object built by
+    another code path, so it is driven further even when it shows the same items."""
     start = []
-    seen = {(): start}
-    queue = collections.deque([()])
+    seen = {((), False): start}
+    queue = collections.deque([((), False)])
     cases = []
     while queue:
         st = queue.popleft()
         path = seen[st]
-        for op in ops:
+        for op in (_core(ops) if st[1] and not full else ops):
             hist = path + [op]
-            case = {'op': 'ciset' if cls == 'set' else 'cimap', 'cls': cls, 'init': [], 'ops': hist, 'probe': PROBE}
+            # the prefixes of `hist` are cases of their own: only the last step is reported and compared
+            case = {'op': 'ciset' if cls == 'set' else 'cimap', 'cls': cls, 'init': [], 'ops': hist, 'probe': PROBE, 'tail': 1}
             cases.append(case)
             if op['o'] in MUTATING and op['o'] != 'incr':  # incr makes values unbounded: applied from every state, never expanded
-                out = impl(case)
+                out = _run(case)
                 if not isinstance(out, list):
                     continue
                 last = out[-1]
-                key = tuple(map(tuple, last['items'])) if cls != 'set' and last['items'] is not None else (
+                obs = tuple(map(tuple, last['items'])) if cls != 'set' and last['items'] is not None else (
                     tuple(last['spellings']) if cls == 'set' else None)
-                if key is not None and key not in seen and (max_states is None or len(seen) < max_states):
+                key = (obs, st[1] or op['o'] == 'lower')
+                if obs is not None and key not in seen and (max_states is None or len(seen) < max_states):
                     seen[key] = hist
                     queue.append(key)
     return cases, len(seen)
 
 
+def _ctor_cases():
+    """every constructor call with up to 4 pairs over {a, A, b} (the values tell the pairs apart), in every calling convention"""
+    import itertools
+    cases = []
+    for n in range(0, 5):
+        for ks in itertools.product(['a', 'A', 'b'], repeat=n):
+            init = [[k, i + 1] for i, k in enumerate(ks)]
+            for cls in ('dict', 'odict'):
+                forms = [('pairs', 0)]
+                if n:
+                    forms += [('pairs', 1), ('dict', 0), ('dict', min(2, n)), ('nopos', n)]
+                for ctor, nkw in forms:
+                    cases.append({'op': 'cimap', 'cls': cls, 'init': init, 'ctor': ctor, 'nkw': nkw,
+                                  'ops': [{'o': 'lower'}], 'probe': PROBE})
+    return cases
+
+
 RICH = ['key', 'Key', 'KEY', 'kEy', 'x', 'X', 'Straße'.replace('ß', 'ss'), 'a1', 'A1', 'a-b', 'A-B', '', ' ', 'Z']
 
 
-# keys with non-ASCII cased letters: pairs / triples that Python's str.lower() identifies (the model's table is regenerated from the
-# interpreter: Gen/UnicodeCase.lean).  Not generated: U+0130 (lower() is two characters) and U+03A3 (final-sigma context rule).
-UNI = ['\u00c9', '\u00e9', '\u00c9a', '\u00e9A', '\u00df', '\u1e9e', '\u212a', 'k', 'K', '\u0414', '\u0434', '\u01c5', '\u01c4', '\u01c6',
-       '\u03c9', '\u03a9', '\u2126', '\u00c5', '\u212b', '\u00e5', '\U00010400', '\U00010428', '\u017f', 's', 'S', '\u0131', 'I', 'i', '\u6bdb', 'ss', 'SS']
+# keys with non-ASCII cased letters: pairs / triples that Python's str.lower() identifies (the model's tables are regenerated from the
+# interpreter: Gen/UnicodeCase.lean, Gen/UnicodeLower.lean), including U+0130 (lower() is two characters) and the capital sigma in
+# and out of final position (lower() depends on the neighbouring characters).
+UNI = ['É', 'é', 'Éa', 'éA', 'ß', 'ẞ', 'K', 'k', 'K', 'Д', 'д', 'ǅ', 'Ǆ', 'ǆ',
+       'ω', 'Ω', 'Ω', 'Å', 'Å', 'å', '\U00010400', '\U00010428', 'ſ', 's', 'S', 'ı', 'I', 'i', '毛', 'ss', 'SS',
+       'İ', 'i̇', 'İ', 'İx', 'i̇X',
+       'Σ', 'σ', 'ς', 'aΣ', 'AΣ', 'aς', 'aσ', 'ΑΣ', 'ας', 'Σa', 'σA', "a'Σ", "A'ς",
+       'aΣb', 'AσB', 'ΣΣ', 'σς', 'σσ', 'a.Σ.', 'A.ς.', '1Σ', '1σ']
 
 
 def _random_case(rng, cls, n):
     global RICH
-    if rng.random() < 0.4:
+    if rng.random() < 0.45:
         saved = RICH
         RICH = UNI
         try:
             c = _random_case_(rng, cls, n)
         finally:
             RICH = saved
-        c['probe'] = PROBE + UNI[:6]
+        c['probe'] = PROBE + rng.sample(UNI, 6)
         return c
     return _random_case_(rng, cls, n)
 
@@ -359,54 +465,85 @@ def _random_case_(rng, cls, n):
     if cls == 'set':
         ops = []
         for _ in range(n):
-            o = rng.choice(['add', 'add', 'discard', 'remove', 'contains', 'canonical', 'lower'])
-            ops.append({'o': o} if o == 'lower' else {'o': o, 'k': rng.choice(RICH)})
+            o = rng.choice(['add', 'add', 'add', 'discard', 'remove', 'contains', 'canonical', 'lower', 'len', 'iter', 'bool', 'pop', 'ior', 'isub',
+                            'clear'])
+            if o == 'clear' and rng.random() < 0.7:
+                o = 'len'
+            if o in SET_NULLARY:
+                ops.append({'o': o})
+            elif o in ('ior', 'isub'):
+                ops.append({'o': o, 'l': [rng.choice(RICH) for _ in range(rng.randint(0, 3))]})
+            else:
+                ops.append({'o': o, 'k': rng.choice(RICH)})
         return {'op': 'ciset', 'cls': 'set', 'init': [rng.choice(RICH) for _ in range(rng.randint(0, 4))], 'ops': ops, 'probe': PROBE + RICH[:4]}
     ops = []
-    names = ['set', 'set', 'set', 'get', 'del', 'contains', 'len', 'iter', 'items', 'getD', 'setdefault', 'pop', 'popD',
-             'popitem', 'update', 'lower', 'clear'] if cls != 'ddict' else ['set', 'set', 'getdefault', 'incr', 'incr', 'del', 'contains', 'len', 'iter', 'items', 'lower']
+    names = ['set', 'set', 'set', 'get', 'del', 'contains', 'len', 'iter', 'items', 'keys', 'values', 'bool', 'getD', 'setdefault', 'pop', 'popD',
+             'popitem', 'update', 'lower', 'clear', 'incr']
+    if cls == 'ddict':
+        names += ['incr', 'incr', 'get']
     for _ in range(n):
         o = rng.choice(names)
-        if o in ('len', 'iter', 'items', 'popitem', 'lower', 'clear'):
+        if o in NULLARY:
             if o == 'clear' and rng.random() < 0.7:
                 o = 'len'
             ops.append({'o': o})
         elif o == 'update':
             ops.append({'o': o, 'ps': [[rng.choice(RICH), rng.randint(-3, 3)] for _ in range(rng.randint(0, 4))]})
-        elif o in ('set', 'getD', 'setdefault', 'popD'):
+        elif o in VALUED:
             ops.append({'o': o, 'k': rng.choice(RICH), 'v': rng.randint(-3, 3)})
-        elif o == 'getdefault':
-            ops.append({'o': o, 'k': rng.choice(RICH), 'v': 0})
         else:
             ops.append({'o': o, 'k': rng.choice(RICH)})
-    # constructor pairs have pairwise distinct exact keys (case variants allowed), as when they come from a dict
-    init = [] if cls == 'ddict' else [[k, rng.randint(-3, 3)] for k in rng.sample(RICH, rng.randint(0, 5))]
-    return {'op': 'cimap', 'cls': cls, 'init': init, 'ops': ops, 'probe': PROBE + RICH[:4]}
+    # constructor pairs: any list, repeated keys and case variants included
+    init = [[rng.choice(RICH), rng.randint(-3, 3)] for _ in range(rng.randint(0, 5))]
+    case = {'op': 'cimap', 'cls': cls, 'init': init, 'ops': ops, 'probe': PROBE + RICH[:4]}
+    if cls != 'ddict' and rng.random() < 0.4:
+        case['ctor'] = rng.choice(['pairs', 'dict', 'nopos'])
+        case['nkw'] = len(init) if case['ctor'] == 'nopos' else rng.randint(0, len(init))
+    return case
+
+
+def _lower_cases(rng, n):
+    """str.lower() itself, model against interpreter (correspondence only): the generator pools and random strings around the
+    string-level rules"""
+    alphabet = ['Σ', 'Σ', 'σ', 'ς', 'İ', '̇', 'i', 'I', 'a', 'A', 'b', "'", '.', ':', '­', 'ʰ', ' ', '1', '-',
+                'ß', 'ẞ', 'Α', 'ǅ', 'Ⅰ', 'Ⓐ', '毛', '\U00010400', 'ͅ', 'ᾼ', 'ª']
+    cases = [{'op': 'cilower', 'ss': UNI + RICH + KEYS + PROBE}]
+    for _ in range(n):
+        cases.append({'op': 'cilower', 'ss': [''.join(rng.choice(alphabet) for _ in range(rng.randint(0, 7))) for _ in range(25)]})
+    return cases
 
 
 def gen_cases(tier, rng, info):
     cases = []
     states = {}
     for cls, ops in (('dict', dict_ops()), ('odict', dict_ops()), ('ddict', ddict_ops()), ('set', set_ops())):
-        cs, n = _bfs(cls, ops)
+        cs, n = _bfs(cls, ops, full=(tier != 'quick'))   # quick: objects that came out of lower() get the core operations only
         states[cls] = n
         cases += cs
+    ctor = _ctor_cases()
+    cases += ctor
+    cases += [{'op': 'cimap', 'cls': 'ddict', 'init': [], 'ops': [], 'probe': PROBE}, {'op': 'ciset', 'cls': 'set', 'init': [], 'ops': [], 'probe': PROBE}]
     info['exhaustive'] = True
-    info['scope'] = 'all reachable states x all operations over keys %r values %r: states per class %r' % (KEYS, VALS, states)
+    info['scope'] = ('all reachable states (items x came-out-of-lower()) x all operations over keys %r values %r: states per class %r; '
+                     '%d constructor calls (every list of <= 4 pairs over a/A/b x calling convention)' % (KEYS, VALS, states, len(ctor)))
     nrand = 1500 if tier == 'quick' else 40000
     for i in range(nrand):
         cls = ('dict', 'odict', 'ddict', 'set')[i % 4]
         cases.append(_random_case(rng, cls, rng.randint(5, 50)))
+    cases += _lower_cases(rng, 40 if tier == 'quick' else 2000)
     return cases
+
 
 LEVEL_TEXT = ('Machine-checked refinement proof (Lean 4): the two-table implementation model of CaseInsensitiveDict / '
               'OrderedCaseInsensitiveDict / CaseInsensitiveDefaultDict / CaseInsensitiveSet keeps its lock-step invariant and '
-              'behaves like the reference ordered map / set under EVERY finite history of operations (induction over the history), '
-              'with the stated corollaries (case-blind lookup, position kept on overwrite, first-insertion order, exact deletion, '
-              'agreement of len/in/iter/items, lower(), default without insertion, frame). The model is tied to the code by a '
-              'correspondence check that is exhaustive over all reachable states x all operations for a 5-key alphabet and sampled beyond.')
-LEVEL_NOTE = ('Trusted: Lean kernel; axioms propext/Classical.choice/Quot.sound only; the hand-written model (Model/CIMap.lean) '
-              'corresponds to pybtex/utils.py only as far as the differential check explores (52k cases quick); Python dict insertion '
-              'order and the collections.abc mix-in methods are modelled, not verified; str.lower is ASCII in the model. '
-              'Constructor pairs are assumed to have pairwise distinct exact keys (as when they come from a dict). '
-              'repr() is checked on the implementation only (harness), not modelled.')
+              'behaves like the reference ordered map / defaulting map / set under EVERY finite history of operations (induction over '
+              'the history) from ANY constructor pair list, for EVERY idempotent key normaliser, with the stated corollaries (case-blind '
+              'lookup, position kept on overwrite, first-insertion order, exact deletion, agreement of len/in/iter/keys/values/items/bool, '
+              'lower(), default without insertion, frame). The model is tied to the code by a correspondence check that is exhaustive '
+              'over all reachable states x all operations for a 5-key alphabet (also for objects returned by lower()) and sampled beyond.')
+LEVEL_NOTE = ('Trusted: Lean kernel; axioms propext/Classical.choice/Quot.sound only; the hand-written model (Model/CIMapU.lean) '
+              'corresponds to pybtex/utils.py only as far as the differential check explores; Python dict insertion '
+              'order and the collections.abc mix-in methods are modelled, not verified; the order of a Python set is not modelled '
+              '(the member pop() picks is taken from the implementation and checked to be a member); str.lower() is modelled on whole '
+              'strings from tables regenerated from the interpreter, the proofs use only its idempotence (proved for the model). '
+              'repr() is checked on the implementation only (harness), not modelled; __eq__ and copying are not covered.')
